@@ -39,7 +39,16 @@ def gen(rng, tier, index):
                              "_save_pickle", "__getstate__", "default"]
             cfg["sched"]["p"] = rng.choice([0.15, 0.3, 0.5])
         ops.append(["line", f"{rng.choice([5, 6, 7])};255;0;0;17;2.0"])
-        ops.append(["line_at_save", "255;255;3;0;3;"])
+        how = rng.choice(["line_at_save", "line_at_tick", "line_at_tick"])
+        if rng.random() < 0.6:
+            # PCT-style: one or two forced switches inside the allocator only, everything else runs to its
+            # next blocking point - the schedule that lets a whole save slip in between two lines of the allocator
+            # (change points counted from the moment the line is put in flight; the save timer oversleeps to the
+            # poll loop's next wake-up so that both really start at the same instant)
+            cfg["window"] = rng.choice([["add_sensor"], ["add_sensor", "_get_next_id", "handle_id_request"]])
+            cfg["sched"] = {"policy": "pct", "seed": rng.getrandbits(32), "k": rng.choice([1, 2]), "arm": True,
+                            "horizon": 8 if len(cfg["window"]) == 1 else 18, "timer_slack": 0.02}
+        ops.append([how, "255;255;3;0;3;"])
         ops.append(["restart"])
         ops.append(["line", "255;255;3;0;3;"])
     if cfg["persistence"] and rng.random() < 0.1:
